@@ -48,6 +48,29 @@ def gen_fdwra_case(rng, oid, kind):
     return m, par
 
 
+def gen_two_resonance_case(rng, oid):
+    """every window shows TWO resonances (a deep, higher one and a shallower one above it in frequency); the object is first rejected over the full range and
+    then -- the judged call -- over a range that holds only the second resonance (or the other way round): the peak of the mean curve, the rejection bounds and
+    the stopping rule of the second call must all refer to ITS range, although the accepted sets of the two calls coincide at entry"""
+    freq = np.geomspace(0.2, 20.0, int(rng.integers(70, 110)))
+    nw = int(rng.integers(12, 30))
+    fa, fb = float(rng.uniform(0.5, 1.0)), float(rng.uniform(4.0, 8.0))
+    rows = []
+    for j in range(nw):
+        out = rng.random() < 0.2
+        f1 = fa * float(np.exp(rng.normal(0, 0.35 if out else 0.05)))
+        f2 = fb * float(np.exp(rng.normal(0, 0.35 if out else 0.05)))
+        c = 1.0 + 4.0 * np.exp(-0.5 * (np.log(freq / f1) / 0.15) ** 2) + 2.5 * np.exp(-0.5 * (np.log(freq / f2) / 0.15) ** 2)
+        rows.append(c * np.exp(rng.normal(0, 0.03, len(freq))))
+    m = Mirror.trad(oid * 5, freq, np.array(rows))
+    split = float(np.sqrt(fa * fb))
+    first, second = ((None, None), (split, None)) if rng.random() < 0.6 else ((split, None), (None, split))
+    par0 = dict(n=2.0, maxit=50, dfn=str(rng.choice(hvgen.DISTS)), dmc=str(rng.choice(hvgen.DISTS)))
+    m.pre_ops = [["fdwra", par0, list(first), False, None]]
+    par = dict(par0, n=float(rng.choice([1.5, 2.0])), range=second)
+    return m, par
+
+
 def gen_exact_zero_case(rng, oid):
     """integer frequencies, triangular curves peaking on integer frequencies, normal distributions: |mean fn - mean-curve peak| can be EXACTLY zero
     while windows still lie outside mean +- n std -- the published algorithm removes them before it looks at the stopping rule"""
@@ -148,6 +171,17 @@ def run(ctx):
         kind = "T" if i % 3 != 2 else "A"
         if i % 40 == 7:
             m, par = gen_exact_zero_case(rng, i + 1)
+        elif i % 20 == 11 and i < n:
+            m, par = gen_two_resonance_case(rng, i + 1)
+            if not apply_pre_history(m, m.pre_ops):
+                ctx.near_tie_skipped += 1
+                continue
+            ctx.count("pre_history:two-resonances")
+            ret, dbg = run_one(m, par)
+            idx = len(lines) + len(m.lines) - 1
+            lines += m.lines
+            cases.append((m, par, ret, dbg, idx, (m.last_near_index if m.last_near_tie else None)))
+            continue
         else:
             m, par = gen_fdwra_case(rng, i + 1, kind) if i < n else gen_scatter_case(rng, i + 1)
         entry = None
